@@ -310,6 +310,48 @@ theorem answer_refines_reference (srt : List Wild → List Wild) (hs : IsSorter 
   rw [e]
   exact answer_refines srt hs cfg t hb rx req
 
+/-- the regenerated **parse decision** of `ParseToVariableMatchItem` equals the closed form `parseVarItem` the rule
+constructor of the model uses: `value` fills `value`, `regex` is compiled (by the matcher's `regexp.Compile` oracle) into
+`regexPattern` — for every pattern, meta-free or not; there is no shortcut that stores a regex as an exact value. -/
+theorem gen_parseVarItem (v : VarCfg) : Gen.Route.parseToVariableMatchItem v = parseVarItem v := by
+  obtain ⟨name, value, regex, model⟩ := v
+  have d1 : (default : VarItem).value = none := rfl
+  have d2 : (default : VarItem).regexPattern = none := rfl
+  unfold Gen.Route.parseToVariableMatchItem parseVarItem
+  cases regex with
+  | none =>
+    by_cases hv : value = [] <;> by_cases hm : model = [] <;>
+      by_cases h1 : lower model = Gen.Route.modelAnd <;> by_cases h2 : lower model = Gen.Route.modelOr <;>
+      simp [VarCfg.regexText, hv, hm, d1, d2, h1, h2]
+  | some r =>
+    obtain ⟨id, ok⟩ := r
+    cases ok <;> by_cases hv : value = [] <;> by_cases hm : model = [] <;>
+      by_cases h1 : lower model = Gen.Route.modelAnd <;> by_cases h2 : lower model = Gen.Route.modelOr <;>
+      simp [VarCfg.regexText, VarCfg.compile, hv, hm, d1, h1, h2]
+
+/-- a configured `regex` always ends up in the item's `regexPattern` (and a configured `value` beside it in `value`) -/
+theorem regex_is_compiled_not_stored (v : VarCfg) (r : Rx) (item : VarItem) (hr : v.regex = some r)
+    (h : Gen.Route.parseToVariableMatchItem v = some item) :
+    item.regexPattern = some r.id ∧ item.value = (if v.value = [] then none else some v.value) := by
+  rw [gen_parseVarItem] at h
+  obtain ⟨name, value, regex, model⟩ := v
+  simp only at hr
+  subst hr
+  unfold parseVarItem at h
+  simp only at h
+  split at h
+  · rename_i p m hp hm
+    cases hok : r.ok with
+    | false => simp [hok] at hp
+    | true =>
+      simp [hok] at hp
+      cases h
+      exact ⟨by rw [← hp], rfl⟩
+  · cases h
+
+example : Gen.Route.parseToVariableMatchItem ⟨"x-mosn-path".toList, [], some ⟨1, true⟩, []⟩
+    = some ⟨"x-mosn-path".toList, none, some 1, Gen.Route.modelAnd⟩ := by decide
+
 /-- the regenerated lookup is the four-step cascade followed by the default (ties `Gen.Route` to the proofs). -/
 theorem gen_lookup_is_cascade (t : Tables) (host port : Str) :
     Gen.Route.findHighestPriorityIndex t host port = findIdx t host port :=
